@@ -269,6 +269,41 @@ class Sim:
         self.probe('remove-ok')
         W.log(step=self.step, outcome='ok', installed=list(self.m.installed))
 
+    def op_external(self, op):
+        """The same add/remove performed by ANOTHER PROCESS on the same data directory while
+        this process keeps its pooled connection (and whatever it remembers) alive."""
+        import subprocess
+        import sys
+        inner = op['do']
+        W = self.W
+        if inner['op'] == 'add':
+            res = self.res[inner['res']]
+            path, _ = self.materialise(res, 'xml')
+            call = 'wn.add(%r, progress_handler=None)' % str(path)
+        else:
+            call = 'wn.remove(%r, progress_handler=None)' % inner['spec']
+        code = ('import sys; sys.path.insert(0, %r); import wn; '
+                'wn.config.data_directory = %r; %s' % (_world.REPO, W.node(W.cur), call))
+        env = dict(os.environ)
+        env['PYTHONDONTWRITEBYTECODE'] = '1'
+        p = subprocess.run([sys.executable, '-c', code], capture_output=True, text=True,
+                           timeout=120, env=env)
+        self.last = {}
+        self.probe('external-process-op')
+        if inner['op'] == 'add':
+            if p.returncode != 0:
+                raise self.violation('external-add-fails', 'add of a valid resource by a second '
+                                     'process failed', {'stderr': p.stderr[-800:], 'op': op})
+            self.m.add_resource(self.res[inner['res']]['lexicons'])
+        else:
+            matched = self.m.select(inner['spec'])
+            if matched and p.returncode != 0:
+                raise self.violation('external-remove-fails', 'remove by a second process '
+                                     'failed', {'stderr': p.stderr[-800:], 'op': op})
+            if matched:
+                self.m.remove_specs(matched)
+        W.log(step=self.step, outcome='external', installed=list(self.m.installed))
+
     def op_restart(self, op):
         self.W.restart()
         self.probe('restart')
